@@ -616,7 +616,7 @@ func genC09(r *rng, tier string, emit func(string)) {
 	}
 	algos := map[string][]string{
 		"sm2":   {"unset", "SM2WithSM3", "SM2WithSHA1", "SM2WithSHA256", "SHA256WithRSA", "ECDSAWithSHA256", "MD2WithRSA", "DSAWithSHA1"},
-		"rsa":   {"unset", "SHA1WithRSA", "SHA256WithRSA", "SHA384WithRSA", "SHA512WithRSA", "SHA256WithRSAPSS", "SHA384WithRSAPSS", "SHA512WithRSAPSS", "SM2WithSM3", "ECDSAWithSHA256", "MD2WithRSA"},
+		"rsa":   {"unset", "SHA1WithRSA", "SHA256WithRSA", "SHA384WithRSA", "SHA512WithRSA", "SHA256WithRSAPSS", "SHA384WithRSAPSS", "SHA512WithRSAPSS", "SM2WithSM3", "ECDSAWithSHA256", "MD2WithRSA", "MD5WithRSA"},
 		"ecdsa": {"unset", "ECDSAWithSHA1", "ECDSAWithSHA256", "ECDSAWithSHA384", "ECDSAWithSHA512", "SHA256WithRSA"},
 	}
 	for i := 0; i < n; i++ {
